@@ -14,6 +14,7 @@
 #include "llvm/Support/CommandLine.h"
 #include "llvm/Support/JSON.h"
 #include "llvm/Support/raw_ostream.h"
+#include <functional>
 #include <map>
 #include <set>
 
@@ -191,6 +192,21 @@ struct Dumper
       for( const auto& b : rd->bases() ) {
          bases.push_back( ty( b.getType() ) );
          recordFacts( b.getType()->getAsCXXRecordDecl() );
+      }
+      // grammar-as-data: the rule types named in the template arguments are recorded too (type graph)
+      if( const auto* sp = dyn_cast< ClassTemplateSpecializationDecl >( rd ) ) {
+         std::function< void( const TemplateArgument& ) > visit = [ & ]( const TemplateArgument& a ) {
+            if( a.getKind() == TemplateArgument::Type ) {
+               if( const auto* ard = a.getAsType()->getAsCXXRecordDecl() )
+                  recordFacts( ard );
+            }
+            else if( a.getKind() == TemplateArgument::Pack ) {
+               for( const auto& x : a.pack_elements() )
+                  visit( x );
+            }
+         };
+         for( const auto& a : sp->getTemplateArgs().asArray() )
+            visit( a );
       }
       o[ "bases" ] = std::move( bases );
       json::Array fields;
